@@ -1,3 +1,169 @@
+/-
+C18 - property theorems: interp_axis is per-fibre piecewise-linear interpolation, exact at the
+nodes, left / right fill outside the label range; the axis becomes exactly the requested
+coordinates, other axes and metadata unchanged.  Values are exact rationals here (the floating-point
+rounding inside np.interp is outside the model: PARTIAL).
+-/
 import DimModel.Lib.Interp
+import DimModel.Proofs.C18
+import Mathlib.Tactic.NormNum
 namespace DimModel
+open Lib
+
+/-- `a + w * (b - a)` over the rationals -/
+def linRat (a b w : Rat) : Rat := a + w * (b - a)
+
+/-- strictly increasing nodes -/
+def StrictInc (xs : List Rat) : Prop := xs.Pairwise (· < ·)
+
+/-- **exact at the nodes**: at an existing label the interpolation reproduces the original value -/
+theorem interpAt_node (xs ys : List Rat) (d left right : Rat) (k : Nat) (hk : k < xs.length)
+    (hlen : ys.length = xs.length) (hinc : StrictInc xs) :
+    interpAt linRat xs ys d left right (xs[k]) = ys[k]'(by omega) := by
+  rw [interpAt_inrange _ _ _ _ _ _ _ (by omega) (pairwiseLt_le hinc _ _ (by omega))
+    (pairwiseLt_le hinc _ _ (by omega))]
+  by_cases hk1 : k + 1 < xs.length
+  · rw [fracIndex_between hinc hk1 (le_refl _) (pairwiseLt_lt hinc _ _ (by omega))]
+    simp only [sub_self, zero_div, beq_self_eq_true, if_true]
+    exact getD_getElem _ _ (by omega)
+  · rw [fracIndex_last hinc (by omega) (le_refl _)]
+    simp only [beq_self_eq_true, if_true]
+    exact getD_getElem _ _ (by omega)
+
+/-- **left fill** below the label range -/
+theorem interpAt_left (xs ys : List Rat) (d left right x lo : Rat) (hlo : xs.head? = some lo) (hx : x < lo) :
+    interpAt linRat xs ys d left right x = left := by
+  unfold interpAt
+  rw [hlo]
+  cases hl : xs.getLast? with
+  | none =>
+    rw [List.getLast?_eq_none_iff] at hl
+    subst hl
+    simp at hlo
+  | some hi =>
+    simp only []
+    rw [if_pos hx]
+
+/-- **right fill** above the label range -/
+theorem interpAt_right (xs ys : List Rat) (d left right x lo hi : Rat) (hlo : xs.head? = some lo)
+    (hhi : xs.getLast? = some hi) (hx1 : ¬ x < lo) (hx : hi < x) :
+    interpAt linRat xs ys d left right x = right := by
+  unfold interpAt
+  rw [hlo, hhi]
+  simp only []
+  rw [if_neg hx1, if_pos hx]
+
+/-- **piecewise linear between two neighbouring nodes**: for `xs[j] < x < xs[j+1]` the result is the
+value on the chord through `(xs[j], ys[j])` and `(xs[j+1], ys[j+1])` - numpy.interp's definition -/
+theorem interpAt_between (xs ys : List Rat) (d left right x : Rat) (j : Nat) (hj : j + 1 < xs.length)
+    (hlen : ys.length = xs.length) (hinc : StrictInc xs)
+    (h0 : xs[j]'(by omega) < x) (h1 : x < xs[j + 1]) :
+    interpAt linRat xs ys d left right x =
+      ys[j]'(by omega) + (x - xs[j]'(by omega)) / (xs[j + 1] - xs[j]'(by omega)) * (ys[j + 1]'(by omega) - ys[j]'(by omega)) := by
+  have hlo : xs[0] ≤ x := le_trans (pairwiseLt_le hinc (by omega) (by omega) (Nat.zero_le j)) (le_of_lt h0)
+  have hhi : x ≤ xs[xs.length - 1] := le_trans (le_of_lt h1) (pairwiseLt_le hinc hj (by omega) (by omega))
+  rw [interpAt_inrange _ _ _ _ _ _ _ (by omega) hlo hhi]
+  rw [fracIndex_between hinc hj (le_of_lt h0) h1]
+  have hw : (x - xs[j]) / (xs[j + 1] - xs[j]) ≠ 0 := by
+    apply div_ne_zero <;> linarith
+  simp only []
+  rw [if_neg (by simpa using hw)]
+  rw [getD_getElem _ _ (by omega : j < ys.length), getD_getElem _ _ (by omega : j + 1 < ys.length)]
+  rfl
+
+/-- the result's axis along the interpolated dimension carries exactly the requested coordinates,
+the other axes and the metadata are unchanged (up to the sorting of that axis) -/
+theorem interpAxis_axes {α : Type} [Inhabited α] (lin : α → α → Rat → α) (a r : DimArray α) (k : DimKey)
+    (newL : List Label) (nk : Kind) (left right : α) (pos : Nat)
+    (hpos : (match k with
+      | .name s => (if a.dims.idxOf s < a.dims.length then Except.ok (a.dims.idxOf s) else Except.error Err.value : Except Err Nat)
+      | .pos i => (if (if i < 0 then i + (a.ndim : Int) else i) < 0 || (if i < 0 then i + (a.ndim : Int) else i) ≥ (a.ndim : Int)
+                   then Except.error Err.index else Except.ok (if i < 0 then i + (a.ndim : Int) else i).toNat)) = .ok pos)
+    (hlt : pos < a.axes.length)
+    (h : interpAxis lin a k newL nk left right = .ok r) :
+    (r.axes.getD pos default).labels = newL ∧ r.attrs = a.attrs ∧
+    ∀ i, i ≠ pos → (r.axes[i]?).map (·.labels) = (a.axes[i]?).map (·.labels) := by
+  unfold interpAxis at h
+  simp only [bind, Except.bind] at h
+  -- both kinds of key: the position computation yields `pos`
+  have key : ∀ v, v = pos →
+      (match
+          labelsToRat
+            ((if isIncreasingEq (a.axes.getD v default).labels = true then a
+                    else takeAxisPos a v (argsortBy Label.le (a.axes.getD v default).labels)).axes.getD
+                v default).labels,
+          labelsToRat newL with
+        | some xs, some nx =>
+          if xs.isEmpty = true then Except.error Err.value
+          else
+            (pure
+              {
+                axes :=
+                  (if isIncreasingEq (a.axes.getD v default).labels = true then a
+                        else takeAxisPos a v (argsortBy Label.le (a.axes.getD v default).labels)).axes.set
+                    v { name := (a.axes.getD v default).name, labels := newL, kind := nk },
+                vals :=
+                  {
+                    shape :=
+                      (if isIncreasingEq (a.axes.getD v default).labels = true then a
+                              else takeAxisPos a v (argsortBy Label.le (a.axes.getD v default).labels)).vals.shape.set
+                        v nx.length,
+                    get := fun j =>
+                      interpAt lin xs
+                        (List.map
+                          (fun i =>
+                            (if isIncreasingEq (a.axes.getD v default).labels = true then a
+                                  else takeAxisPos a v (argsortBy Label.le (a.axes.getD v default).labels)).vals.get
+                              (j.set v i))
+                          (List.range xs.length))
+                        default left right (nx.getD (j.getD v 0) 0) },
+                attrs :=
+                  (if isIncreasingEq (a.axes.getD v default).labels = true then a
+                    else takeAxisPos a v (argsortBy Label.le (a.axes.getD v default).labels)).attrs } : Except Err (DimArray α))
+        | _, _ => Except.error Err.type) = Except.ok r →
+      (r.axes.getD pos default).labels = newL ∧ r.attrs = a.attrs ∧
+        ∀ i, i ≠ pos → (r.axes[i]?).map (·.labels) = (a.axes[i]?).map (·.labels) := by
+    intro v hv h
+    subst hv
+    have ho := sortedOrSelf_props a v (isIncreasingEq (a.axes.getD v default).labels)
+      (argsortBy Label.le (a.axes.getD v default).labels)
+    generalize (if isIncreasingEq (a.axes.getD v default).labels = true then a
+      else takeAxisPos a v (argsortBy Label.le (a.axes.getD v default).labels)) = o at h ho
+    split at h
+    · split at h
+      · cases h
+      · simp only [pure, Except.pure] at h
+        injection h with h
+        subst h
+        exact interpAxis_tail o a v _ newL rfl hlt ho
+    · cases h
+  cases k with
+  | name s =>
+    simp only [] at h hpos
+    split at hpos
+    · rename_i hc
+      rw [if_pos hc] at h
+      injection hpos with hpos
+      simp only [pure, Except.pure] at h
+      exact key _ hpos h
+    · cases hpos
+  | pos i =>
+    simp only [] at h hpos
+    generalize (if i < 0 then i + (a.ndim : Int) else i) = j at h hpos
+    by_cases hc : (decide (j < 0) || decide (j ≥ (a.ndim : Int))) = true
+    · rw [if_pos hc] at hpos
+      cases hpos
+    · rw [if_neg hc] at h hpos
+      injection hpos with hpos
+      simp only [pure, Except.pure] at h
+      exact key _ hpos h
+
+/-- non-vacuity: interpolation half-way between two nodes -/
+example : interpAt linRat [0, 2, 4] [10, 20, 40] 0 (-1) (-2) 3 = 30 ∧ StrictInc [0, 2, 4] := by
+  have hinc : StrictInc [0, 2, 4] := by
+    unfold StrictInc; decide
+  refine ⟨?_, hinc⟩
+  rw [interpAt_between [0, 2, 4] [10, 20, 40] 0 (-1) (-2) 3 1 (by decide) rfl hinc (by decide) (by decide)]
+  norm_num
+
 end DimModel
